@@ -595,3 +595,5 @@ PROPS["C11"]["rule"] += (" Every engine starts from the process's first-use stat
                          "from a library given as explicit code while their action text is the same in every location.")
 PROPS["C04"]["rule"] += (" Another action kind writes to its view of the event (a counter) before returning what it sees: every "
                          "execution must count exactly one, and the caller's event must be unchanged afterwards.")
+PROPS["C20"]["rule"] += (" Capacity part: half of the cases serve the location through a sys.System whose default location control, or "
+                         "the control of the location's group (GroupControls / LocToGroup), carries the maximum.")
